@@ -450,6 +450,8 @@ def _gen_plan(rng, spec):
     stationary = [e["own"] for e in spec["eqs"] if e["own"] not in trendy and e["form"] in
                   ("lin", "exp", "prod", "ratio", "geo", "loglin", "sum")]
     kind = rng.choice(["swap", "swap", "fix_level_trend", "fix_change", "fix_level_swap"])
+    if kind == "fix_level_swap" and spec["split"]:
+        spec["split"] = None        # blazer needs a square incidence matrix: qids = equations + 1 here
     if kind in ("swap", "fix_level_swap") and stationary and spec["family"] != "bgp":
         own = rng.choice(stationary)
         b = f"b_{own}"
@@ -1084,3 +1086,338 @@ def shard_text(nl_cases, lin_cases) -> str:
     lines.append(f"Eval vm_compute in (map (fun r => f_all_below {coq_float(LIN_TOL)} (fst r) && "
                  f"f_all_below {coq_float(LIN_TOL)} (snd r)) lcontracts).")
     return "\n".join(lines) + "\n"
+
+
+# =====================================================================================================
+# the property itself, stated on the public API (falsifier), evaluated with the independent evaluator
+# =====================================================================================================
+
+FALSIFY_DATES = (-3, -2, -1, 0, 1, 2, 3, 5)
+FALSIFY_RTOL = 1e-8
+# equation forms of the generator whose residual on a steady path is affine in time or geometric = geometric
+EVERY_DATE_FORMS = ("lin", "loglin", "rw", "follow", "rwlog", "followlog", "geo")
+
+
+def _unpack(d, name, i):
+    v = d[name]
+    return v[i] if isinstance(v, (list, tuple)) else v
+
+
+def check_property(spec: dict, out: dict) -> list:
+    """-> list of failure dicts (key, what, observed, required) for one model whose steady() completed"""
+    m = out["model"]
+    fails = []
+    nv = spec["nv"]
+    levels = dict(m.get_steady_levels(unpack_singleton=False))
+    changes = dict(m.get_steady_changes(unpack_singleton=False))
+    params = dict(m.get_parameters(unpack_singleton=False))
+    shape = f"{spec['family']}:{'linear' if spec['linear'] else 'nonlinear'}:{'flat' if spec['flat'] else 'growth'}:" \
+            f"{'plan' if spec['plan'] else 'noplan'}"
+    plan = spec["plan"] or EMPTY_PLAN
+    for i in range(nv):
+        if not out.get("info_success", [True] * nv)[i]:
+            continue
+
+        def val(kind, name, shift, t=0):
+            if kind == "shk":
+                return 0.0
+            if kind == "par":
+                return float(_unpack(params, name, i))
+            lv = _unpack(levels, name, i)
+            ch = _unpack(changes, name, i)
+            if lv is None or ch is None:
+                return float("nan")
+            k = t + shift
+            return float(lv) * float(ch) ** k if name in spec["logs"] else float(lv) + float(ch) * k
+        # 1. every steady equation at several dates on the path defined by the stored levels and changes.
+        #    Dates other than t, t+1 are required only where "every date" follows from two dates (flat paths; residuals
+        #    affine in time; geometric = geometric): for the other equations of growth models it is an assumption of
+        #    balanced growth (every_date_partial) and misses are only counted
+        for j, e in enumerate(spec["eqs"]):
+            st = e.get("steady", e)
+            strict_all = spec["flat"] or e["form"] in EVERY_DATE_FORMS
+            for t in FALSIFY_DATES:
+                def v(kind, name, shift, t=t):
+                    return val(kind, name, shift, t)
+                try:
+                    lhs, rhs = tree_eval(st["lhs"], v), tree_eval(st["rhs"], v)
+                    scale = tree_scale(st["lhs"], v) + tree_scale(st["rhs"], v)
+                    res = lhs - rhs
+                except (ValueError, OverflowError, ZeroDivisionError) as ex:
+                    res, scale = float("nan"), 1.0
+                if not (abs(res) <= FALSIFY_RTOL * (1.0 + scale)):
+                    soft = not (strict_all or t in (0, 1))
+                    fails.append({"key": ("every-date-partial:" if soft else "residual:") + shape, "variant": i, "soft": soft,
+                                  "what": f"steady equation `{render(st['lhs'], False)} = {render(st['rhs'], False)}` does not hold "
+                                          f"at date t{t:+d} on the path of the stored steady levels and changes",
+                                  "observed": {"residual": res, "date": t, "levels": {k: _unpack(levels, k, i) for k in spec['vars']},
+                                               "changes": {k: _unpack(changes, k, i) for k in spec['vars']}},
+                                  "required": f"|residual| <= {FALSIFY_RTOL}*(1+{scale:.3g})"})
+                    break
+        # 2. flat mode: constant paths
+        if spec["flat"]:
+            for nm in spec["vars"]:
+                want = 1.0 if nm in spec["logs"] else 0.0
+                if _unpack(changes, nm, i) != want:
+                    fails.append({"key": f"flat-change:{shape}", "variant": i,
+                                  "what": f"flat steady state stores change {_unpack(changes, nm, i)} for {nm}",
+                                  "observed": _unpack(changes, nm, i), "required": want})
+        # 3. fixed / exogenized quantities keep their assigned values
+        for nm in plan["exogenize"] + plan["fix_level"]:
+            a = spec["start"][nm][i]
+            if a is not None and _unpack(levels, nm, i) != a[0]:
+                fails.append({"key": f"fixed-level-moved:{shape}", "variant": i,
+                              "what": f"the level of the fixed/exogenized {nm} was changed by steady()",
+                              "observed": _unpack(levels, nm, i), "required": a[0]})
+        for nm in plan["exogenize"] + plan["fix_change"]:
+            a = spec["start"][nm][i]
+            if a is not None and a[1] is not None and _unpack(changes, nm, i) != a[1]:
+                fails.append({"key": f"fixed-change-moved:{shape}", "variant": i,
+                              "what": f"the change of the fixed/exogenized {nm} was changed by steady()",
+                              "observed": _unpack(changes, nm, i), "required": a[1]})
+        # 4. parameters: only endogenized ones may move
+        for k, vals in spec["param_values"].items():
+            got = _unpack(params, k, i)
+            if k in plan["endogenize"]:
+                if got is None or got != got:
+                    fails.append({"key": f"endogenized-missing:{shape}", "variant": i,
+                                  "what": f"endogenized parameter {k} has no value", "observed": got, "required": "a number"})
+            elif got != vals[i]:
+                fails.append({"key": f"parameter-moved:{shape}", "variant": i,
+                              "what": f"parameter {k} (not endogenized) was changed by steady()",
+                              "observed": got, "required": vals[i]})
+    return fails
+
+
+def process_spec(spec: dict) -> dict:
+    """one model: run the implementation, build the correspondence cases, evaluate the property"""
+    out = run_impl(spec)
+    res = {"error": out["error"], "nl": [], "lin": [], "fails": [], "harness_error": None,
+           "shape": (spec["family"], "linear" if spec["linear"] else "nonlinear", "flat" if spec["flat"] else "growth",
+                     "plan" if spec["plan"] else "noplan", f"nv{spec['nv']}", f"split={spec['split']}"),
+           "nblocks": []}
+    if out["error"]:
+        return res
+    try:
+        for V in out["variants"]:
+            if V["kind"] == "nonlinear":
+                res["nl"].append(nl_case(out, spec, V))
+                res["nblocks"].append(len(V["blocks"]))
+            else:
+                res["lin"].append(lin_case(out, V))
+        res["fails"] = check_property(spec, out)
+    except Exception as e:  # noqa
+        import traceback
+        res["harness_error"] = traceback.format_exc()[-1500:]
+    return res
+
+
+def _worker(spec):
+    core.use_repo_in_process()
+    import warnings
+    warnings.filterwarnings("ignore")
+    try:
+        return process_spec(spec)
+    except Exception as e:  # noqa
+        import traceback
+        return {"error": None, "nl": [], "lin": [], "fails": [], "harness_error": traceback.format_exc()[-1500:],
+                "shape": ("?",), "nblocks": []}
+
+
+def run_many(specs: list, workdir=None) -> list:
+    """run the models in fresh single-threaded interpreters (BLAS threads x processes would oversubscribe the cores)"""
+    import json
+    import subprocess
+    import tempfile
+    n = min(core.NCPU, 16, max(1, len(specs) // 4))
+    if n <= 1:
+        return [_worker(s) for s in specs]
+    d = workdir or core.WORK / ID
+    d.mkdir(parents=True, exist_ok=True)
+    env = core.impl_env()
+    for k in ("OMP_NUM_THREADS", "OPENBLAS_NUM_THREADS", "MKL_NUM_THREADS"):
+        env[k] = "1"
+    procs = []
+    for i in range(n):
+        fin, fout = d / f"specs_{i}.json", d / f"results_{i}.json"
+        fin.write_text(json.dumps(specs[i::n]))
+        if fout.exists():
+            fout.unlink()
+        procs.append((i, fout, subprocess.Popen(["/venv/bin/python", "-W", "ignore", "-m", "harness.C05", "--worker",
+                                                 str(fin), str(fout)], cwd=str(core.VERIF), env=env,
+                                                stdout=subprocess.DEVNULL, stderr=subprocess.PIPE, text=True)))
+    results = [None] * len(specs)
+    for i, fout, p in procs:
+        _, err = p.communicate()
+        if p.returncode != 0 or not fout.exists():
+            raise RuntimeError(f"C05 worker {i} failed rc={p.returncode}: {err[-1500:]}")
+        for j, r in enumerate(json.loads(fout.read_text())):
+            results[i + j * n] = r
+    return results
+
+
+def _main_worker(fin, fout):
+    import json
+    specs = json.loads(open(fin).read())
+    res = [_worker(s) for s in specs]
+    open(fout, "w").write(json.dumps(res))
+
+
+_CACHE = {}
+
+
+def _runs(ctx):
+    key = (ctx.seed, ctx.tier)
+    if key not in _CACHE:
+        n = ctx.scale(240, 8000)
+        specs = [gen_spec(ctx.rng) for _ in range(n)]
+        _CACHE[key] = (specs, run_many(specs, ctx.work))
+    return _CACHE[key]
+
+
+def correspondence(ctx) -> CorrResult:
+    specs, results = _runs(ctx)
+    res = CorrResult()
+    dist = {"models": len(specs), "completed": 0, "not_converged_or_error": 0, "shapes": {}, "blocks_per_variant": {},
+            "errors": {}}
+    nl_all, lin_all = [], []
+    for spec, r in zip(specs, results):
+        if r["harness_error"]:
+            res.disagreements.append(Disagreement("harness", {"source": source_text(spec)}, None, r["harness_error"]))
+            continue
+        if r["error"]:
+            dist["not_converged_or_error"] += 1
+            k = r["error"].split(":")[1].strip() if ":" in r["error"] else r["error"]
+            dist["errors"][k] = dist["errors"].get(k, 0) + 1
+            continue
+        dist["completed"] += 1
+        sh = "/".join(r["shape"])
+        dist["shapes"][sh] = dist["shapes"].get(sh, 0) + 1
+        for nb in r["nblocks"]:
+            dist["blocks_per_variant"][str(nb)] = dist["blocks_per_variant"].get(str(nb), 0) + 1
+        for c in r["nl"]:
+            nl_all.append((spec, c))
+        for c in r["lin"]:
+            lin_all.append((spec, c))
+    res.evaluations = len(nl_all) + len(lin_all)
+    res.distinct_nontrivial = len({repr(c["xtrings"]) + repr(c["levels"]) + repr(c["orcs"]) for _, c in nl_all
+                                   if c["orcs"]}) + len({repr(c["sys"]) for _, c in lin_all})
+    res.distribution = dist
+    res.rule = ("one generated model with a steady state (stationary / unit root with drift / balanced growth with log-variables; "
+                "1-7 equations; linear or nonlinear; flat or growth; optional !! steady versions; random parameters and starting "
+                "values; optional steady plan; 1-2 variants; split_into_blocks None/True/False) run through Simultaneous.steady; one "
+                "case per parameter variant; non-trivial = at least one block was handed to the solver (nonlinear) or a linear "
+                "system was solved; distinct = distinct (equations, starting values, recorded solver output)")
+    res.samples = [{"source": source_text(s), "plan": s["plan"], "flat": s["flat"], "linear": s["linear"],
+                    "expect": c["expect"]} for s, c in nl_all[:2]] + \
+                  [{"source": source_text(s), "flat": s["flat"], "expect": c["expect"]} for s, c in lin_all[:1]]
+    if len(specs) and dist["completed"] < 0.6 * len(specs):
+        res.disagreements.append(Disagreement(
+            "too few generated models complete steady() without error", dist["errors"], ">= 60%",
+            f"{dist['completed']}/{len(specs)}"))
+    # shards
+    per_nl, per_lin = 40, 20
+    nsh = max(1, math.ceil(len(nl_all) / per_nl), math.ceil(len(lin_all) / per_lin))
+    shards = []
+    for k in range(nsh):
+        a = nl_all[k * len(nl_all) // nsh:(k + 1) * len(nl_all) // nsh]
+        b = lin_all[k * len(lin_all) // nsh:(k + 1) * len(lin_all) // nsh]
+        shards.append((a, b))
+    texts = [shard_text([c for _, c in a], [c for _, c in b]) for a, b in shards]
+    results = core.run_cases(ctx, texts)
+    res.shards = len(texts)
+    comp = {1: "wrt_qids", 2: "fixed_level_qids", 3: "fixed_change_qids", 4: "block observations (index masks / initial guess / "
+            "residual vector at the final guess)", 5: "stored levels after write-back", 6: "stored changes after write-back"}
+    for k, (ok, outp) in enumerate(results):
+        a, b = shards[k]
+        if not ok:
+            res.disagreements.append(Disagreement(f"cases shard {k} does not evaluate", None, outp[-800:], None))
+            continue
+        bodies = core.parse_eval_lists(outp)
+        if len(bodies) != 4:
+            res.disagreements.append(Disagreement(f"cases shard {k}: unparsable output", None, outp[-800:], None))
+            continue
+        import re
+        for i, d in re.findall(r"\((\d+), (\d+)\)", bodies[0]):
+            spec, c = a[int(i)]
+            res.disagreements.append(Disagreement(f"nonlinear:{comp[int(d)]}",
+                                                  {"source": source_text(spec), "plan": spec["plan"], "flat": spec["flat"],
+                                                   "split": spec["split"], "levels": c["levels"], "changes": c["changes"],
+                                                   "orcs": c["orcs"]},
+                                                  "model result differs in: " + comp[int(d)], c["expect"]))
+        flags = re.findall(r"true|false", bodies[1])
+        for i, fl in enumerate(flags):
+            if fl == "false":
+                spec, c = a[i]
+                res.disagreements.append(Disagreement("success-criterion", {"source": source_text(spec)},
+                                                      "solver reported success, so max|residual| < tolerance",
+                                                      [b_["resid"] for b_ in c["expect"]["blocks"]]))
+        for i, fl in enumerate(re.findall(r"true|false", bodies[2])):
+            if fl == "false":
+                spec, c = b[i]
+                res.disagreements.append(Disagreement("linear:write-back", {"source": source_text(spec), "sys": c["sys"]},
+                                                      "model result differs", c["expect"]))
+        for i, fl in enumerate(re.findall(r"true|false", bodies[3])):
+            if fl == "false":
+                spec, c = b[i]
+                res.disagreements.append(Disagreement("linear:lstsq-contract", {"source": source_text(spec), "sys": c["sys"]},
+                                                      f"the recorded solution solves the stacked system within {LIN_TOL}", None))
+    return res
+
+
+def falsify(ctx, hints):
+    specs, results = _runs(ctx)
+    fails, info = [], {"models": len(specs), "completed": 0, "equation_date_checks": 0, "failures": 0}
+    seen = set()
+    for spec, r in zip(specs, results):
+        if r["error"] or r["harness_error"]:
+            continue
+        info["completed"] += 1
+        info["equation_date_checks"] += len(spec["eqs"]) * len(FALSIFY_DATES) * spec["nv"]
+        for f in r["fails"]:
+            if f.get("soft"):
+                info["every_date_partial_misses"] = info.get("every_date_partial_misses", 0) + 1
+                info.setdefault("every_date_partial_sample", {"source": source_text(spec), "what": f["what"],
+                                                               "observed": f["observed"]})
+                continue
+            info["failures"] += 1
+            if f["key"] in seen:
+                continue
+            seen.add(f["key"])
+            inp = {"source": source_text(spec), "spec": _jsonable(spec), "variant": f["variant"]}
+            fails.append(Failure(f["key"], f["what"], inp, f["observed"], f["required"],
+                                 "m = irispie.Simultaneous.from_string(source, linear=spec['linear'], flat=spec['flat']); "
+                                 "m.assign(...); m.steady(plan=..., split_into_blocks=spec['split']); see harness/C05.py build_model"))
+    return fails, info
+
+
+def _jsonable(spec):
+    import json
+    return json.loads(json.dumps(spec))
+
+
+def _retuple(t):
+    if isinstance(t, list) and t and isinstance(t[0], str) and t[0] in ("num", "int", "var", "par", "shk", "+", "-", "*", "/",
+                                                                          "^", "neg", "exp", "log"):
+        return tuple(_retuple(x) for x in t)
+    return t
+
+
+def replay(ctx, failure: dict):
+    spec = failure["input"]["spec"]
+    for e in spec["eqs"]:
+        e["lhs"], e["rhs"] = _retuple(e["lhs"]), _retuple(e["rhs"])
+        if "steady" in e:
+            e["steady"] = {"lhs": _retuple(e["steady"]["lhs"]), "rhs": _retuple(e["steady"]["rhs"])}
+    core.use_repo_in_process()
+    r = process_spec(spec)
+    for f in r["fails"]:
+        if f["key"] == failure["key"] and not f.get("soft"):
+            return Failure(f["key"], f["what"], failure["input"], f["observed"], f["required"])
+    return None
+
+
+if __name__ == "__main__":
+    import sys
+    if len(sys.argv) == 4 and sys.argv[1] == "--worker":
+        _main_worker(sys.argv[2], sys.argv[3])
